@@ -78,7 +78,7 @@ func GenFaulty(d *m.Design, s *m.Service, meth *m.Method, transport string, maxO
 		if transport == "grpc" {
 			return gen.GRPCValueGen(d, a)
 		}
-		return gen.ValidValue(d, a, 3)
+		return gen.ValidValueAt(d, a, gen.LocFor("body"), 3)
 	}
 	return rapid.Custom(func(t *rapid.T) *Case {
 		c := &Case{Svc: s.Name, Method: meth.Name, Transport: transport, FaultAt: -1}
@@ -104,6 +104,8 @@ func GenFaulty(d *m.Design, s *m.Service, meth *m.Method, transport string, maxO
 			script = []byte(strings.Repeat("s", n))
 		case "payload":
 			script = []byte(strings.Repeat("c", n))
+			// the client ends a payload stream (CloseAndRecv, or Close when the method has no result)
+			c.Spec.ClientCloses = true
 		default:
 			for i := 0; i < n; i++ {
 				if rapid.Bool().Draw(t, "dir") {
